@@ -30,7 +30,14 @@ def rebound_ids(fnode, name):
                 out |= {id(x) for x in ast.walk(st)}
         if isinstance(n, (ast.ListComp, ast.SetComp, ast.GeneratorExp, ast.DictComp)) and any(
                 isinstance(t, ast.Name) and t.id == name for g in n.generators for t in ast.walk(g.target)):
-            out |= {id(x) for x in ast.walk(n)}
+            # everything inside the comprehension except the FIRST generator's iterable (evaluated in the enclosing scope) and, to
+            # stay on the safe side, the iterables / conditions of generators in front of the one that binds the name
+            first_binding = next(i for i, g in enumerate(n.generators) if any(isinstance(t, ast.Name) and t.id == name for t in ast.walk(g.target)))
+            unsafe = {id(x) for x in ast.walk(n.generators[0].iter)}
+            for g in n.generators[:first_binding]:
+                unsafe |= {id(x) for part in [g.iter] + list(g.ifs) for x in ast.walk(part)}
+            unsafe |= {id(x) for x in ast.walk(n.generators[first_binding].iter)}
+            out |= {id(x) for x in ast.walk(n)} - unsafe
     return out
 
 
